@@ -77,10 +77,16 @@ def cases(tier):
         for op in ('>=', '<='):
             for decomp in (False, True):
                 cs.append(dict(kind='pseudobool', hist=hist, op=op, decomp=decomp))
+    for pol in ([0, 1], [1, 0], [0, 0]):
+        for decomp in (False, True):
+            cs.append(dict(kind='pseudobool', hist=1, op='>=', decomp=decomp, pol=pol, conc=[1, 5, 1, 9]))
     cs.append(dict(kind='strop'))
     cs.append(dict(kind='legal', net='hard2'))
     cs.append(dict(kind='legal', net='pair'))
     cs.append(dict(kind='defaults'))
+    for c in cs:
+        if c['kind'] in ('pseudobool', 'strop', 'legal', 'defaults'):
+            c['_fork'] = True  # every path in its own process: leftover state of one re-execution must not reach the next
     return cs
 
 
@@ -212,29 +218,65 @@ def body_alloc(I, case):
 
 
 # ---------------------------------------------------------------------------------------------------------------
+def pb_probe(I, case, want_sem=False):
+    from fv.props import c07
+    sm = SM.SATManager()
+    q, sem, used = c07.make_ineq(I, sm, 'q', 2, case['op'], 7 if case['decomp'] else None, struct=([0, 1], case.get('pol', [0, 1])),
+                                 conc=case.get('conc'))
+    try:
+        sm.pseudoboolencoding(q, case['decomp'])
+    except Exception as e:
+        return ['refused', str(e)]
+    names = ['def_' + c07.VARS[v] for v in used]
+    table = c07.ext_table(I, sm.clauses, names)
+    if want_sem:
+        return ['encoded', table, sem, used]
+    return ['encoded', sorted([list(k), v] for k, v in table.items())]
+
+
+def fresh_interpreter_probe(I, case):
+    """concrete replays: the probe alone in a really fresh interpreter (hidden state cannot leak into the reference run)"""
+    import json
+    import os
+    import subprocess
+    code = ("import sys, json; sys.path[:0] = ['/verif', '/repo']; from fv import symx; from fv.props import c20; "
+            "d = json.loads(sys.stdin.read()); print(json.dumps(c20.pb_probe(symx.ConcreteI(d['values']), d['case'])))")
+    p = subprocess.run(['/venv/bin/python', '-c', code], input=json.dumps(dict(values=I.values, case=case)), capture_output=True, text=True,
+                       env=dict(os.environ, PYTHONHASHSEED='0'), timeout=300)
+    return json.loads(p.stdout.strip().splitlines()[-1])
+
+
 def body_pseudobool(I, case):
     from fv.props import c07
-    n = 2
-
-    def probe():
-        sm = SM.SATManager()
-        q, sem, used = c07.make_ineq(I, sm, 'q', n, case['op'], 7 if case['decomp'] else None, struct=([0, 1], [0, 1]))
-        try:
-            sm.pseudoboolencoding(q, case['decomp'])
-        except Exception as e:
-            return ('refused', str(e))
-        names = ['def_' + c07.VARS[v] for v in used]
-        return ('encoded', c07.ext_table(I, sm.clauses, names))
     fresh_state()
-    for h in range(case['hist']):
-        hm = SM.SATManager()
-        c07.EARLIER[h % len(c07.EARLIER)](hm)
-        PB.Ineq()  # a call that receives the mutable defaults
-    r1 = probe()
-    fresh_state()
-    r2 = probe()
+    try:
+        for h in range(case['hist']):
+            hm = SM.SATManager()
+            c07.EARLIER[h % len(c07.EARLIER)](hm)
+            # an unrelated design on the same variable names with opposite polarities / other bounds
+            hm2 = SM.SATManager()
+            hm2.pseudoboolencoding(5 * hm2.newvar('a') + 3 * (-hm2.newvar('b')) + 2 * hm2.newvar('c') >= 4, case['decomp'])
+            hm3 = SM.SATManager()
+            hm3.pseudoboolencoding(5 * hm3.newvar('a') + 3 * hm3.newvar('b') >= 6, case['decomp'])
+            PB.Ineq()  # a call that receives the mutable defaults
+        full = pb_probe(I, case, want_sem=True)
+        r1 = full if full[0] != 'encoded' else ['encoded', sorted([list(k), v] for k, v in full[1].items())]
+        if full[0] == 'encoded':
+            # what a fresh process computes is the exact projection (C07); after any history it must be the same thing
+            conds = []
+            for bits, e in full[1].items():
+                want = full[2](dict(zip(full[3], bits)))
+                conds.append(want if e else Not(want))
+            I.prove('encoding-after-earlier-encodings-is-still-exact', And(*conds))
+    except Exception as e:  # the history (or the probe after it) fails although the probe alone works: a visible difference
+        r1 = ['raised', type(e).__name__]
+    if I.mode == 'symbolic':
+        fresh_state()
+        r2 = pb_probe(I, case)
+    else:
+        r2 = fresh_interpreter_probe(I, case)
     I.reached('pseudobool')
-    I.prove('encoding-independent-of-earlier-encodings', r1[0] == r2[0] and r1[1] == r2[1])
+    I.prove('encoding-independent-of-earlier-encodings', r1 == r2)
 
 
 def body_strop(I, case):
